@@ -183,8 +183,8 @@ func c22(c *report.Check) {
 		}
 		r1 := c22Run(h, false, 2)
 		r2 := c22Run(h, true, unsyncedPairs)
-		if !c.Thorough() && len(h) <= 2 {
-			// short histories: zeroed holes anywhere in the last TWO entries with the rest intact
+		if !c.Thorough() && len(h) <= 3 {
+			// zeroed holes anywhere in the last TWO entries with the rest intact (a lost entry followed by one that reached the disk)
 			r3 := c22RunX(h, true, 2, true)
 			r2.images += r3.images
 			r2.opened += r3.opened
